@@ -28,16 +28,16 @@ PROPS = {
         ),
     ),
     "C02": dict(
-        pid=2, coq=_CSYNC_COQ + ["CSync/Props_C02.v"], props_file="CSync/Props_C02.v", models=_CSYNC_MODELS,
+        pid=2, coq=_CSYNC_COQ + ["CSync/MTerm.v", "CSync/Props_C02.v"], props_file="CSync/Props_C02.v", models=_CSYNC_MODELS,
         trusted=SCHED_TRUSTED,
         assumptions=["liveness stated as quiescence safety: no grantable waiter is blocked in any state without enabled internal steps",
-                     "termination of internal steps is argued, not yet proved, for csync (each section moves an actor forward; only release/give-up sections broadcast)"],
+                     "termination of internal steps is a theorem for Mutex (c02_mutex_internal_steps_terminate, explicit measure); for RWMutex it is argued with the same measure (each section moves an actor forward; only release/give-up sections broadcast), not yet proved"],
         meta=dict(
             text="Coq theorems over all event lists of the same models: no-lost-wake-up invariant (a caller blocked on an open channel is not grantable), hence at every "
                  "quiescent state no grantable waiter is blocked and no cancelled caller is blocked; counters have no residue from cancelled/failed calls; a read grant "
                  "happens only when no writer is registered waiting (writer preference). The pinned code's violation (D1) is a _refuted theorem and a corpus history. "
                  "Correspondence as C01, with quiescence monitors on the implementation's observations.",
-            note=NOTE + "Liveness is stated as quiescence safety; termination of internal steps is not yet a theorem for this model.",
+            note=NOTE + "Liveness is stated as quiescence safety plus termination of internal steps (proved for Mutex with an explicit measure; for RWMutex the termination part is argued, not proved).",
             technique="Coq inductive invariant (no lost wake-up) over an interleaving model + schedule-controlled differential correspondence",
         ),
     ),
